@@ -135,11 +135,16 @@ func (e *Encoder) Encode(obus [][]byte) ([]*rtp.Packet, error) {
 				break
 			}
 
+			// the OBU continues in the next packet only
+			// if a fragment of it has been written in this packet.
+			fragmented := false
+
 			if omitSize {
 				if avail > 0 {
 					curPacket.Payload[0] |= byte((obusInPacket + 1) << 4) // W
 					curPacket.Payload = append(curPacket.Payload, obu[:avail]...)
 					obu = obu[avail:]
+					fragmented = true
 				}
 			} else {
 				if avail > maxFragmentedLEBSize {
@@ -152,11 +157,12 @@ func (e *Encoder) Encode(obus [][]byte) ([]*rtp.Packet, error) {
 					curPacket.Payload = append(curPacket.Payload, buf...)
 					curPacket.Payload = append(curPacket.Payload, obu[:fragmentLen]...)
 					obu = obu[fragmentLen:]
+					fragmented = true
 				}
 			}
 
-			finalizeCurPacket(true)
-			createNewPacket(true)
+			finalizeCurPacket(fragmented)
+			createNewPacket(fragmented)
 		}
 	}
 
